@@ -2,13 +2,11 @@
    Only property theorems (each closed by [exact]) and [Print Assumptions]; the model is
    Model/Playlist*.v, the proofs Proofs/Playlist*.v.
 
-   On the pinned tree Media.Marshal has three defects (finding F4), so the faithful model
-   refutes the full media statement ([.._refuted_..]); what holds is stated at full strength for
-   the model ([c14_media_roundtrip_image]: Unmarshal (Marshal p) is the F4 image of p) and as
-   the [.._partial] theorems under the hypothesis that excludes exactly the findings' inputs. *)
+   The model follows /repo after the three repairs of finding F4 (6848a21 DISCONTINUITY-SEQUENCE,
+   93623b4 EXT-X-START of media playlists, aab99f6 SERVER-CONTROL attribute list). *)
 From Coq Require Import List ZArith Bool String.
 From GoHls Require Import Model.PlaylistBase Model.PlaylistIdeal Model.Playlist Model.PlaylistSpec
-  Proofs.PlaylistRefute Proofs.PlaylistIdeal Proofs.PlaylistMedia Proofs.PlaylistMulti Proofs.PlaylistC14
+  Proofs.PlaylistIdeal Proofs.PlaylistMedia Proofs.PlaylistMulti Proofs.PlaylistC14
   Proofs.PlaylistExamples Proofs.PlaylistVariants Proofs.PlaylistKind.
 Import ListNotations.
 Local Open Scope string_scope.
@@ -19,11 +17,10 @@ Theorem c14_oracle_envelope_satisfiable : oracle_ok z_oracles.
 Proof. exact z_oracles_ok. Qed.
 Print Assumptions c14_oracle_envelope_satisfiable.
 
-(* a rich media playlist (keys changing, parts, byte ranges, date-time, server control, skip,
-   preload hint) satisfies wf_media and the hypotheses of the partial theorems *)
-Theorem c14_example_media :
-  wf_media ex_media = true /\ f4_free ex_media = true
-  /\ opt_ok sc_canblockreload (m_servercontrol ex_media) = true.
+(* a rich media playlist (EXT-X-START, discontinuity sequence different from the media sequence,
+   SERVER-CONTROL without CAN-BLOCK-RELOAD, keys changing, parts, byte ranges, date-time, skip,
+   preload hint) satisfies wf_media *)
+Theorem c14_example_media : wf_media ex_media = true.
 Proof. exact ex_media_ok. Qed.
 Print Assumptions c14_example_media.
 
@@ -33,60 +30,22 @@ Print Assumptions c14_example_multivariant.
 
 (* ---- Media ---- *)
 (* For every oracle instance within the envelope and every media playlist value satisfying the
-   documented field requirements: Unmarshal (Marshal p) succeeds and reproduces, field by field
-   (durations to 10 us, date-times to 1 ms and the same zone offset, everything else exactly),
-   the F4 image of p: p with DiscontinuitySequence replaced by MediaSequence, Start dropped, and
-   the first attribute of a SERVER-CONTROL without CAN-BLOCK-RELOAD dropped. *)
-Theorem c14_media_roundtrip_image : forall (O : oracles), oracle_ok O -> forall p : Media,
+   documented field requirements: Unmarshal (Marshal p) succeeds and reproduces p field by field
+   (durations to 10 us, date-times to 1 ms and the same zone offset, everything else exactly). *)
+Theorem c14_media_roundtrip : forall (O : oracles), oracle_ok O -> forall p : Media,
   wf_media p = true ->
-  exists p', media_unmarshal O (media_marshal O p) = Ok p' /\ media_eqvb (f4_image p) p' = true.
-Proof. exact media_roundtrip_image. Qed.
-Print Assumptions c14_media_roundtrip_image.
+  exists p', media_unmarshal O (media_marshal O p) = Ok p' /\ media_eqvb p p' = true.
+Proof. exact media_roundtrip_eqv. Qed.
+Print Assumptions c14_media_roundtrip.
 
-(* the round trip proper, for the values the three defects leave alone *)
-Theorem c14_media_roundtrip_partial : forall (O : oracles), oracle_ok O -> forall p : Media,
-  wf_media p = true -> f4_free p = true -> media_roundtrip_ok O p = true.
-Proof. exact media_roundtrip_partial. Qed.
-Print Assumptions c14_media_roundtrip_partial.
-
-(* Marshal (Unmarshal (Marshal p)) = Marshal p unless SERVER-CONTROL lacks CAN-BLOCK-RELOAD *)
-Theorem c14_media_fixpoint_partial : forall (O : oracles), oracle_ok O -> forall p : Media,
-  wf_media p = true -> opt_ok sc_canblockreload (m_servercontrol p) = true ->
-  media_fixpoint_ok O p = true.
-Proof. exact media_fixpoint_partial. Qed.
-Print Assumptions c14_media_fixpoint_partial.
-
-(* Finding F4 (a): EXT-X-DISCONTINUITY-SEQUENCE carries the media sequence number *)
-Theorem c14_media_roundtrip_refuted_discseq :
-  exists p, wf_media p = true /\ media_roundtrip_ok z_oracles p = false
-            /\ media_marshal z_oracles p =
-               "#EXTM3U" ++ lf ++ "#EXT-X-VERSION:3" ++ lf ++ "#EXT-X-TARGETDURATION:2" ++ lf
-               ++ "#EXT-X-MEDIA-SEQUENCE:0" ++ lf ++ "#EXT-X-DISCONTINUITY-SEQUENCE:0" ++ lf
-               ++ "#EXTINF:1.00000," ++ lf ++ "s.mp4" ++ lf.
-Proof. exact media_roundtrip_refuted_discseq. Qed.
-Print Assumptions c14_media_roundtrip_refuted_discseq.
-
-(* Finding F4 (b): EXT-X-START of a media playlist is never printed *)
-Theorem c14_media_roundtrip_refuted_start :
-  exists p, wf_media p = true /\ media_roundtrip_ok z_oracles p = false
-            /\ media_marshal z_oracles p = media_marshal z_oracles media_min.
-Proof. exact media_roundtrip_refuted_start. Qed.
-Print Assumptions c14_media_roundtrip_refuted_start.
-
-(* Finding F4 (c): EXT-X-SERVER-CONTROL without CAN-BLOCK-RELOAD starts with a comma; the first
-   attribute is lost on re-read and Marshal is not a fixpoint on its own output *)
-Theorem c14_media_roundtrip_refuted_server_control :
-  exists p, wf_media p = true /\ media_roundtrip_ok z_oracles p = false
-            /\ media_fixpoint_ok z_oracles p = false
-            /\ media_marshal z_oracles p =
-               "#EXTM3U" ++ lf ++ "#EXT-X-VERSION:3" ++ lf ++ "#EXT-X-TARGETDURATION:2" ++ lf
-               ++ "#EXT-X-SERVER-CONTROL:,PART-HOLD-BACK=1.00000" ++ lf
-               ++ "#EXT-X-MEDIA-SEQUENCE:0" ++ lf ++ "#EXTINF:1.00000," ++ lf ++ "s.mp4" ++ lf.
-Proof. exact media_roundtrip_refuted_server_control. Qed.
-Print Assumptions c14_media_roundtrip_refuted_server_control.
+(* Marshal (Unmarshal (Marshal p)) = Marshal p *)
+Theorem c14_media_fixpoint : forall (O : oracles), oracle_ok O -> forall p : Media,
+  wf_media p = true -> media_fixpoint_ok O p = true.
+Proof. exact media_fixpoint. Qed.
+Print Assumptions c14_media_fixpoint.
 
 (* ---- Multivariant ---- *)
-(* round trip (every field exactly, EXT-X-START to 10 us) and fixpoint, no exception *)
+(* round trip (every field exactly, EXT-X-START to 10 us) and fixpoint *)
 Theorem c14_multivariant_roundtrip : forall (O : oracles), oracle_ok O -> forall p : Multivariant,
   wf_multivariant p = true ->
   exists p', multivariant_unmarshal O (multivariant_marshal O p) = Ok p'
@@ -97,10 +56,10 @@ Print Assumptions c14_multivariant_roundtrip.
 
 (* ---- kind selection ---- *)
 (* playlist.Unmarshal picks the right kind: of the Marshal output of a media playlist value it
-   returns a Media (the F4 image of the value), of a multivariant value a Multivariant *)
+   returns a Media equivalent to the value, of a multivariant value a Multivariant *)
 Theorem c14_kind_media : forall (O : oracles), oracle_ok O -> forall p : Media,
   wf_media p = true ->
-  exists p', unmarshal O (media_marshal O p) = Ok (PMedia p') /\ media_eqvb (f4_image p) p' = true.
+  exists p', unmarshal O (media_marshal O p) = Ok (PMedia p') /\ media_eqvb p p' = true.
 Proof. exact unmarshal_media_kind. Qed.
 Print Assumptions c14_kind_media.
 
